@@ -9,3 +9,39 @@ Lemma sync_write_is : sync_write = repeat 1 16 ++ [60;90]. Proof. reflexivity. Q
 Lemma tape_default_size_is : tape_default_size = 21504. Proof. reflexivity. Qed.
 Lemma block_types_are : block_type_LEADER = 0 /\ block_type_DATA = 1 /\ block_type_EOF = 255 /\ block_type_count = 3.
 Proof. repeat split; reflexivity. Qed.
+Lemma sync_write_len : zlen sync_write = 18. Proof. reflexivity. Qed.
+Lemma sync_read_len : zlen sync_read = 5. Proof. reflexivity. Qed.
+Lemma wb_next1_is p : wb_next1 p = p + 18. Proof. reflexivity. Qed.
+Lemma wb_next2_is p b : wb_next2 p b = p + zlen b. Proof. reflexivity. Qed.
+Lemma wb_guard1_is n m : wb_guard1 n m = (m <=? n). Proof. reflexivity. Qed.
+Lemma wb_guard2_is n m : wb_guard2 n m = (m <=? n). Proof. reflexivity. Qed.
+Lemma nb_after_sync_is p : nb_after_sync p = p + 5. Proof. reflexivity. Qed.
+Lemma nb_bound_test_is p m : nb_bound_test p m = (p + 2 <=? m). Proof. reflexivity. Qed.
+Lemma nb_len_index_is p : nb_len_index p = p + 1. Proof. reflexivity. Qed.
+Lemma nb_block_end_is p l : nb_block_end p l = if 0 <? l then p + l + 1 else p + 257. Proof. reflexivity. Qed.
+Lemma bb_eof_is ty : bb_eof ty = [ty; 2; 0]. Proof. reflexivity. Qed.
+Lemma bb_header_is ty d : bb_header ty d = [ty; Z.land (zlen d + 2) 255]. Proof. reflexivity. Qed.
+Lemma bb_trailer_is d : bb_trailer d = [checksum d]. Proof. reflexivity. Qed.
+Lemma checksum_is d : checksum d = Z.land (256 - fold_left (fun s b => Z.land (s + b) 255) d 0) 255. Proof. reflexivity. Qed.
+Lemma inj_next_pos_is p r : inj_next_pos p r = if r <? 254 then p + r else p + 254. Proof. reflexivity. Qed.
+Lemma inj_dispatch_is ext : inj_dispatch ext =
+  if zeqb_list ext [66;65;83;44;65] then ([66;65;83], 0, 65535, true)
+  else if zeqb_list ext [66;65;83] then (ext, 0, 0, false)
+  else if zeqb_list ext [67;83;86] then (ext, 1, 0, false) else (ext, 2, 0, false).
+Proof. reflexivity. Qed.
+Lemma inj_name_limit_is : inj_name_limit = 8. Proof. reflexivity. Qed.
+Lemma inj_defaults_are : inj_default_type = 2 /\ inj_default_mode = 0. Proof. split; reflexivity. Qed.
+Lemma inj_overflow_status_is : inj_overflow_status = 1. Proof. reflexivity. Qed.
+Lemma ext_sep_is : ext_sep_from = [47] /\ ext_sep_to = 95. Proof. split; reflexivity. Qed.
+Lemma body_bounds_are : body_lo = 2 /\ body_hi_from_end = 1 /\ block_type_index = 0. Proof. repeat split; reflexivity. Qed.
+Lemma ld_fields_are : ld_name_lo = 2 /\ ld_name_hi = 10 /\ ld_ext_lo = 10 /\ ld_ext_hi = 13 /\ ld_type_index = 13 /\
+  ld_mode_hi_index = 14 /\ ld_mode_lo_index = 15 /\ ld_payload_size = 14.
+Proof. repeat split; reflexivity. Qed.
+Lemma ld_mode_of_is hi lo : ld_mode_of hi lo = hi * 256 + lo. Proof. reflexivity. Qed.
+Lemma ttb_fields_are : ttb_name_lo = 0 /\ ttb_name_hi = 8 /\ ttb_name_cut_lo = 0 /\ ttb_name_cut_hi = 8 /\
+  ttb_name_pad = repeat 32 8 /\ ttb_ext_lo = 8 /\ ttb_ext_hi = 11 /\ ttb_ext_cut_lo = 0 /\ ttb_ext_cut_hi = 3 /\
+  ttb_ext_pad = repeat 32 3 /\ ttb_type_index = 11 /\ ttb_mode_hi_index = 12 /\ ttb_mode_lo_index = 13 /\ ttb_block_type = 0.
+Proof. repeat split; reflexivity. Qed.
+Lemma ttb_values_are ty mode : ttb_type_value ty mode = Z.land ty 255 /\
+  ttb_mode_hi_value ty mode = Z.land (Z.shiftr mode 8) 255 /\ ttb_mode_lo_value ty mode = Z.land mode 255.
+Proof. repeat split; reflexivity. Qed.
